@@ -85,7 +85,7 @@ def shapes_for(ctx):
         "HyperLogLog": [(7, 5), (10, 1), (14, 2**40 + 3)],
     }
     if not quick:
-        for _ in range(5):
+        for _ in range(10):
             sh["CountMinLinear"].append((rng.randrange(1, 400), rng.randrange(1, 9)))
             sh["CountMinLog16"].append((rng.randrange(1, 900), rng.randrange(1, 9), rng.choice([10**6, 2**32 - 1]), rng.choice([0, 15, 1023])))
             sh["CountMinLog8"].append((rng.randrange(1, 2000), rng.randrange(1, 9), rng.choice([10**4, 2**32 - 1]), rng.choice([0, 3, 15])))
@@ -327,7 +327,7 @@ def run(ctx):
 
     # ---- 4. the model inside Coq on the same prefixes
     jobs = []
-    stride = 97 if quick else 11
+    stride = 97 if quick else 7
     for fz in files:
         full = smallest[fz["cls"]] is fz
         pts = prefix_points(len(fz["data"]), full, stride)
